@@ -22,6 +22,7 @@ import numpy as np
 from glue.core.hub import HubListener
 from glue.core.message import DataCollectionDeleteMessage, DataRemoveComponentMessage
 from glue.core.contracts import contract
+from glue.core.decorators import clear_all_caches
 from glue.core.link_helpers import LinkCollection, JoinLink
 from glue.core.component_link import ComponentLink
 from glue.core.data import Data, BaseCartesianData
@@ -245,6 +246,9 @@ class LinkManager(HubListener):
 
         # Only keep actual Data instances since only they support links for now
         data_collection = [d for d in data_collection if isinstance(d, BaseCartesianData)]
+
+        # Cached subset masks may have been computed using the previous links
+        clear_all_caches()
 
         for data in data_collection:
             links = discover_links(data, self._links | self._inverse_links)
